@@ -60,29 +60,32 @@ impl BracketAtom {
 }
 
 /// Converts the last three items into a range if applicable.
-fn make_range(items: &mut Vec<BracketItem>) {
-    use BracketAtom::*;
+/// Combines the last three items into a range if they are of the form
+/// `start-end`.
+///
+/// `hyphens` has the same length as `items` and tells whether each item is an
+/// unquoted hyphen, which is the only item that can be the range operator.
+fn make_range(items: &mut Vec<BracketItem>, hyphens: &mut Vec<bool>) {
     use BracketItem::*;
 
-    if let Some(i1) = items.pop() {
-        if let Atom(end) = i1 {
-            if let Some(i2) = items.pop() {
-                if let Atom(Char('-')) = i2
-                    && let Some(i3) = items.pop()
-                {
-                    if let Atom(start) = i3 {
-                        items.push(Range(start..=end));
-                        return;
-                    }
-                    items.push(i3);
-                }
-                items.push(i2);
-            }
-            items.push(Atom(end));
-        } else {
-            items.push(i1);
-        }
+    debug_assert_eq!(items.len(), hyphens.len());
+    let len = items.len();
+    if len < 3 || !hyphens[len - 2] {
+        return;
     }
+    if !matches!(items[len - 1], Atom(_)) || !matches!(items[len - 3], Atom(_)) {
+        return;
+    }
+    let Some(Atom(end)) = items.pop() else {
+        unreachable!()
+    };
+    items.pop();
+    let Some(Atom(start)) = items.pop() else {
+        unreachable!()
+    };
+    items.push(Range(start..=end));
+    hyphens.truncate(len - 3);
+    hyphens.push(false);
 }
 
 impl Bracket {
@@ -102,13 +105,16 @@ impl Bracket {
             complement: false,
             items: Vec::new(),
         };
+        // Whether each item is an unquoted hyphen
+        let mut hyphens = Vec::new();
         while let Some(pc) = i.next() {
             match pc {
                 PatternChar::Normal(']') if !bracket.items.is_empty() => return Some((bracket, i)),
                 PatternChar::Normal('!' | '^')
                     if !bracket.complement && bracket.items.is_empty() =>
                 {
-                    bracket.complement = true
+                    bracket.complement = true;
+                    continue;
                 }
                 PatternChar::Normal('[') => {
                     if let Some((atom, j)) = BracketAtom::parse_inner(i.clone()) {
@@ -117,10 +123,14 @@ impl Bracket {
                     } else {
                         bracket.items.push(Atom(Char('[')));
                     }
+                    hyphens.push(false);
                 }
-                c => bracket.items.push(Atom(Char(c.char_value()))),
+                c => {
+                    bracket.items.push(Atom(Char(c.char_value())));
+                    hyphens.push(c == PatternChar::Normal('-'));
+                }
             }
-            make_range(&mut bracket.items);
+            make_range(&mut bracket.items, &mut hyphens);
         }
         None
     }
